@@ -112,6 +112,23 @@ CHECKS = {
             'length. The for-all-models statement about lengths is part of R in C01/C02/C04.',
             'This check compares integers per design (enumeration over designs); the solver-decided part of the '
             'property is carried by C01/C02. Reference arithmetic in vf/ref.py is trusted.', '6 C16'),
+    'C20': (OT, 'B+A', 'CrossHair symbolic execution of the real converters on experiments with unconstrained symbolic values '
+                       'and symbolic shape; CSV through an in-memory open() read back with the csv module; key sets of real sequences',
+            'experiments_to_tuples/dicts are confirmed over all paths to reproduce every value in design order for plain, '
+            'weight-desugared and continuous-factor blocks; save_experiments_csv round-trips a 7-value alphabet per cell; '
+            'every corpus design returns exactly the user-declared columns.',
+            'Bounded to 1-2 experiments, 1-3 trials; CSV 1-2 trials.', '6 C20'),
+    'C21': (OT, 'B', 'CrossHair symbolic execution of the real tabulate_experiments with symbolic level per cell and symbolic '
+                     'trial selection; independent parser of the captured stdout',
+            'For each shape (incl. colliding multi-word level names, the empty level, two experiments) every assignment of '
+            'levels to cells and every trial selection is explored; each printed row must carry the exact count and '
+            'percentage string and every combination must appear exactly once.',
+            'Bounded to <=3 trials/factors, 2 experiments; stdout captured.', '6 C21'),
+    'C22': (OT, 'B', 'CrossHair symbolic execution of the real continuous sampling loop with distributions stubbed by symbolic draws',
+            'block.sample_continuous is driven with symbolic integer draws and a symbolic window start: the result is the '
+            'accepted attempt, the ContinuousConstraint holds at every trial, derived and window factors see the same '
+            'trial / the preceding outputs with NaN exactly where undefined, cumulative distributions restart per attempt.',
+            'Integers stand for sampled reals (no float arithmetic in the library); at most 2 resampling attempts.', '6 C22'),
     'C24': (TV, 'A', 'projection inclusion between two real compiled formulas, both directions, decided by SMT after the '
                      'definability closure; no reference semantics',
             'For each design and documented law (MultiCrossBlock = Merge of CrossBlocks for every mode x alignment the '
